@@ -533,4 +533,13 @@ def encStat : Stat → Bytes
 
 def encTlv (t : Nat × Nat × Bytes) : Bytes := be16 t.1 ++ be16 t.2.2.length ++ t.2.2
 
+/-- a whole message (RFC 7854 section 4.1): common header with the message's own length, then the body -/
+def encMsg (typ : Nat) (body : Bytes) : Bytes := encCommon (6 + body.length) typ ++ body
+
+/-- the body of a Peer Up Notification after the per-peer header (RFC 7854 section 4.10): the
+16-octet local address field (`z` = its first 12 octets, `a4` = its last 4), the two ports, the
+sent and the received OPEN, Information TLVs -/
+def encPeerUpBody (z a4 : Bytes) (lp rp : Nat) (sent rcvd : Bytes) (tlvs : List (Nat × Nat × Bytes)) : Bytes :=
+  z ++ (a4 ++ (be16 lp ++ (be16 rp ++ (sent ++ (rcvd ++ tlvs.flatMap encTlv)))))
+
 end Rc.Bmp
